@@ -138,6 +138,13 @@ def execute_run(cfg, rid):
     b = cfg['budget']
     try:
         fraw = None
+        if cfg.get('constraint'):
+            # the documented constraint options (free parameters sum to at most 3); bounds and protocol are unchanged
+            if kind == 'opt':
+                import nlopt
+                kw.update(algorithm=nlopt.LN_COBYLA, ineq_constraints=[(lambda p, grad: p[0] + p[1] - 3.0, 1e-6)])
+            else:
+                kw.update(ieq_constraint=lambda p, *args: np.array([3.0 - (p[0] + p[1])]))
         if kind == 'opt':
             x, fraw = Inference.opt(p0, prob.data, model, None, log_opt=log, maxeval=b, **kw)
         elif kind == 'optimize_grid':
@@ -167,7 +174,8 @@ def _ints(v, mask=False):
 
 def _array(v, mask=False):
     # a mask or a bound list holding None cannot be a float array: such lists stay lists
-    return list(v) if any(x is None for x in v) else np.array(v, dtype=float)
+    # the array is a strided (non-contiguous) view: nothing in the statement restricts the layout
+    return list(v) if any(x is None for x in v) else np.repeat(np.array(v, dtype=float), 2)[::2]
 
 
 #: how start point, bounds and mask are handed to dadi (record field 'container')
@@ -330,6 +338,9 @@ def edge_cfgs(kind, log, seed):
     for full in (True, False):
         for mn in (True, False):
             case('plain', mid, lo2, hi2, multinom=mn, full=full)
+    if kind == 'optimize_cons' or (kind == 'opt' and not log):
+        for mn in (True, False):
+            case('constraint', mid, lo2, hi2, multinom=mn, full=True, truth=[2.2, 2.4], constraint=True)
     if scaled:
         case('ll_scale', mid, lo2, hi2, full=True, ll_scale=rat(2.0))
         case('ll_scale_fixed', [1.0, 1.5, 1.0], None, None, fixed=[None, None, 0.5], full=True, ll_scale=rat(4.0))
@@ -411,12 +422,12 @@ def execute_static(op, inp, rid):
     fx_arg = None if inp.get('fixed_is_none') else (None if fixed is None else wrap(fixed, True))
     if op == 'up':
         x = [num(v) for v in inp['x']]
-        arg = np.float64(x[0]) if inp.get('scalar') else (np.array(x) if inp.get('array') else x)
+        arg = np.float64(x[0]) if inp.get('scalar') else (_array(x) if inp.get('array') and x else x)
         out = observe(lambda: Inference._project_params_up(arg, fx_arg), 'y')
         site = 'Inference._project_params_up'
     elif op == 'down':
         y = [num(v) for v in inp['y']]
-        out = observe(lambda: Inference._project_params_down(np.array(y) if inp.get('array') else y, fx_arg), 'x')
+        out = observe(lambda: Inference._project_params_down(_array(y) if inp.get('array') and y else y, fx_arg), 'x')
         site = 'Inference._project_params_down'
     elif op == 'up_down':
         x = [num(v) for v in inp['x']]
@@ -641,15 +652,15 @@ def run(ctx):
     if not getattr(ctx, 'no_mc', False):
         # the exhaustive runs do not depend on the records: TLC works while Python drives the optimisers
         from concurrent.futures import ThreadPoolExecutor
-        pool = ThreadPoolExecutor(max_workers=2)
-        pending = (pool.submit(nonvacuity), pool.submit(lambda: [common.run_mc(spec, cfg) for spec, cfg in mcs]))
+        pool = ThreadPoolExecutor(max_workers=1 + len(mcs))
+        pending = (pool.submit(nonvacuity), [pool.submit(common.run_mc, spec, cfg) for spec, cfg in mcs])
     if recs is None:
         recs = run_records(ctx) + static_records(ctx)
     res = _pipeline(ctx, recs, extra)
     if pending:
         cov = res['coverage']
         cov['nonvacuity'] = pending[0].result()
-        for (spec, cfg), (r, v) in zip(mcs, pending[1].result()):
+        for (spec, cfg), (r, v) in zip(mcs, [f.result() for f in pending[1]]):
             cov['states'] += r.states
             cov['transitions'] += r.transitions
             cov['model_checking_runs'].append({'spec': spec, 'cfg': cfg, 'distinct_states': r.states, 'states_generated': r.transitions,
